@@ -246,10 +246,10 @@ def C05(rep):
     # systematic PCT space of the smallest contended scenario (two producers, one item each, one consumer)
     t = rep.tier
     chan_sys(rep, ["mpsc_b"], 4, 8, caps=(1,), label="chan-sys-mpsc-d4")
-    chan_sys(rep, ["mpmc_b", "mpsc_rv", "mpmc_rv", "mpsc_u", "mpmc_u", "spsc_b", "spsc_rv"], n(t, 3, 4), n(t, 8, 10),
+    chan_sys(rep, ["mpmc_b", "mpsc_rv", "mpmc_rv", "mpsc_u", "mpmc_u", "spsc_b", "spsc_rv"], n(t, 3, 4), 8,
              caps=n(t, (1,), (1, 2)), label="chan-sys-sync")
     if t != "quick":
-        chan_sys(rep, ["mpsc_b", "mpmc_b"], 4, 10, caps=(1, 2), shapes=("drain", "hold", "leave"), seeds=(1, 2, 3), items=2,
+        chan_sys(rep, ["mpsc_b", "mpmc_b"], 4, 10, caps=(1,), shapes=("drain", "hold"), seeds=(1, 2), items=2,
                  label="chan-sys-deep")
     rep.assumptions += CHAN_ASSUME + [
         "a blocked thread is one the scheduler finds parked with no unpark pending after a grace period; spurious unparks are legal and used only to wind a run down"]
@@ -443,7 +443,8 @@ def C15(rep):
     if hs:
         rep.samples.append({"driver": "loader-sched", "history_head": [json.loads(x) for x in hs[min(3, len(hs) - 1)][:14]]})
     os.unlink(out)
-    rep.assumptions += ["sync loader only (the async loader runs on a tokio spawner the scheduler does not control)",
+    rep.assumptions += ["two thirds of the scenarios use the thread-based loader (its threads are adopted through a guarded hook), one third an AsyncCache "
+                        "with an async loader whose tasks run on scheduler-managed threads (the driver's own TaskSpawner; no tokio)",
                         "the cache's loader thread is adopted by the scheduler through a guarded hook; invalidation is exercised in single-thread scenarios only",
                         "Layer A (specs/loader/LoaderA.tla) is written from the property text"]
 
